@@ -50,6 +50,12 @@ RULE = ("One feature with 1-2 scenarios of 1-3 steps. Every step function (befor
         "exception whose __str__ raises UnicodeDecodeError / UnicodeEncodeError (behave builds the failure message inside the capture "
         "window) x emission profiles x 8 switches, as first, middle or last scenario: an ordinary failing step (report = exactly its "
         "captured output, streams/handlers restored, the run continues with the next scenario). "
+        "Library-use dimension: the user's hook function of one hook kind (before/after all, feature, tag, scenario, step) is "
+        "undecorated or wrapped with the documented behave.log_capture.capture / capture(level=DEBUG|ERROR) and logs a well-formed record "
+        "plus optionally one whose lazy formatting fails (args not fitting the format string; an argument whose __str__ raises); "
+        "steps that log such records; default, custom and broken (unknown key) --logging-format; x 8 switches on 3-scenario programs. "
+        "Oracle unchanged, plus: after a decorated hook returns or raises, no LoggingCapture it installed is on the root logger and the "
+        "root level is what it was before the call. "
         "Volume dimension: a passing step emits N stdout lines, N stderr lines and N log records before the failing step, "
         "N = capacity-1, capacity, capacity+1, 2*capacity+1 where capacity is read at run time from the real LoggingCapture "
         "handler object (logging.handlers.BufferingHandler capacity, the only size constant in behave/capture.py and "
@@ -70,6 +76,14 @@ ASSUMPTIONS = ["scenario hooks do not print (before_scenario runs before the per
                "duplicated markers inside a report are not flagged (statement: contains everything / nothing from other scenarios)",
                "an exception whose __str__ raises something that is NOT a UnicodeError is outside the alphabet (textutil.text() only promises to "
                "cope with undecodable text); __repr__/__format__ of exceptions are not called by the failure path",
+               "how the failure to format a log record surfaces (hook error, step error, logging's handleError output on stderr, not at all) is "
+               "not stated: where such a record is involved the first failing step is taken from the observed statuses and the decorator's "
+               "'Captured Logging' print-out is optional; what IS demanded: nothing escapes run(), streams / root handlers / level restored, "
+               "every failing step's report holds exactly its scenario's captured output, the run goes on",
+               "a @capture-decorated step hook replaces behave's own scenario log capture by design (inveigle() removes any existing "
+               "LoggingCapture); what happens to later log output of that scenario is outside the statement: decorated before_step/after_step "
+               "hooks are enumerated with log capture off only (all other hook kinds with both)",
+               "records logged by scenario/feature/run/tag hooks (outside the capture windows of steps) are not judged",
                "KeyboardInterrupt raised inside a step hook is outside the alphabet (hook errors are Exception subclasses)",
                "child-process runs (thorough) compare marker sets/orders on the real pipes, not complete byte images (tracebacks, timings)"]
 
@@ -79,11 +93,12 @@ OUTCOMES = PASSING + FAILING
 CHANS = ("O", "E", "LW", "LE", "LO", "LS")
 LOGSPEC = {"LW": ("c18", logging.WARNING), "LE": ("c18", logging.ERROR), "LO": ("other", logging.ERROR),
            "VL": ("c18", logging.ERROR), "LD": ("c18", logging.DEBUG),
+           "HK": ("c18", logging.ERROR),     # record logged by the user's (possibly @capture-decorated) hook function
            "LS": ("c18.sub", logging.ERROR)}
 CHAN_NAME = {"O": "stdout", "E": "stderr", "LW": "logging", "LE": "logging", "LO": "logging", "LS": "logging",
-             "VO": "stdout", "VE": "stderr", "VL": "logging", "LD": "logging"}
+             "VO": "stdout", "VE": "stderr", "VL": "logging", "LD": "logging", "HK": "logging"}
 # VO/VE/VL = the i-th line / record of a "vol" step (volume dimension): <VL:s0k0v00017>
-MARK = re.compile(r"<(O|E|LW|LE|LO|LS|LD|VO|VE|VL):s(\d+)k(\d+)(x?)([bsta]|v\d+)>")
+MARK = re.compile(r"<(O|E|LW|LE|LO|LS|LD|HK|VO|VE|VL):s(\d+)k(\d+)(x?)([bsta]|v\d+)>")
 # volume dimension: N = mult * capacity + offset, capacity read from the real LoggingCapture handler object at run time
 VOLUMES = ((1, -1), (1, 0), (1, 1), (2, 1))
 USER_LEVEL = 25
@@ -106,6 +121,27 @@ UNI_KINDS = ("ude",     # AssertionError subclass, args non-empty, __str__ raise
              "uee",     # AssertionError subclass, __str__ raises UnicodeEncodeError
              "pude",    # StepNotImplementedError (pending) subclass, __str__ raises UnicodeDecodeError
              "xude")    # plain Exception subclass, __str__ raises UnicodeDecodeError (message built by traceback.format_exc)
+
+
+# "library use": the documented behave.log_capture.capture decorator on environment hooks, and records whose lazy formatting fails
+HOOK_KINDS = ("before_all", "after_all", "before_feature", "after_feature", "before_tag", "after_tag",
+              "before_scenario", "after_scenario", "before_step", "after_step")
+STEP_HOOKS = ("before_step", "after_step")
+REC_KINDS = ("badargs", "badstr")       # passing steps that also log a record that cannot be formatted
+FORMATS = {"-": [], "custom": ["--logging-format=%(name)s/%(levelname)s/%(message)s"],
+           "nokey": ["--logging-format=%(nokey)s %(message)s"]}
+
+
+class BadStr(object):
+    def __str__(self):
+        raise RuntimeError("__str__ of a logged argument fails")
+
+
+def log_bad_record(kind):
+    if kind in ("args", "badargs"):
+        logging.getLogger("c18").error("disk usage: %d%%", "n/a")       # TypeError when the record is formatted
+    elif kind in ("str", "badstr"):
+        logging.getLogger("c18").error("value: %s", BadStr())          # RuntimeError when the record is formatted
 
 
 def isfail(o):
@@ -138,6 +174,12 @@ CONFIG_LEVELS = {"unset": ([], logging.INFO), "NOTSET": (["--logging-level=NOTSE
 def logvar(name):
     if name in LOGVARS:
         return LOGVARS[name]
+    if name.startswith("dc|"):
+        # dc|<hook kind or 'none'>|<n undecorated, c @capture, d @capture(level=DEBUG), e @capture(level=ERROR)>|
+        #    <record logged by that hook: ok / args / str>|<logging format: - / custom / nokey>
+        _, hook, deco, rec, fmt = name.split("|")
+        return {"args": list(FORMATS[fmt]), "handler": True, "level": logging.INFO, "filter": None, "clear": False,
+                "dc": (hook, deco, rec), "fmt": fmt}
     if name.startswith("nl|"):
         # nl|<handlers on the NAMED logger 'c18' (the one steps log to), added in before_all>|<clear 0/1>; root has the user handler
         _, n, clear = name.split("|")
@@ -239,9 +281,11 @@ def _route(chan, sw, lv):
     return "cap" if cap_err else "err"        # logging.lastResort -> sys.stderr
 
 
-def render(scens):
+def render(scens, tags=False):
     lines = ["Feature: c18", ""]
     for si, seq in enumerate(scens):
+        if tags:
+            lines.append("  @t%d" % si)
         lines.append("  Scenario: S%d" % si)
         for ki, o in enumerate(seq):
             lines.append("    Given s%dk%d %s" % (si, ki, o))
@@ -278,7 +322,10 @@ class ListHandler(logging.Handler):
         self.msgs = []
 
     def emit(self, record):
-        self.msgs.append(record.getMessage())
+        try:
+            self.msgs.append(record.getMessage())
+        except Exception:       # like the standard handlers: a record that cannot be formatted does not raise into the caller
+            self.msgs.append("<unformattable record>")
 
 
 class IdentRecorder(object):
@@ -411,7 +458,45 @@ def drive(scens, sw, lvname, vol=None):
     try:
         config = m["Configuration"](config_args(sw, lv), load_config=False)
         reg = m["StepRegistry"]()
-        feat = m["parse_feature"](render(scens), filename="c18.feature")
+        dc_hook, dc_deco, dc_rec = lv.get("dc", ("none", "n", "ok"))
+        feat = m["parse_feature"](render(scens, tags=dc_hook in ("before_tag", "after_tag")), filename="c18.feature")
+        scen_index = {id(sc): si for si, sc in enumerate(feat.scenarios)}
+        obs["deco"] = []
+
+        # the user's own hook function of the "dc|" variants: logs one well-formed record (marker HK) and possibly one that
+        # cannot be formatted; decorated with the documented behave.log_capture.capture or not
+        def user_hook(ctx, *args):
+            name = dc_hook
+            if name in STEP_HOOKS:
+                ident = args[0].name.split()[0] + name[0]
+            else:
+                sc = getattr(ctx, "scenario", None) if "scenario" in name or "tag" in name else None
+                ident = "s%dk9%s" % (scen_index.get(id(sc), 9), name[0])
+            mk = "<HK:%s>" % ident
+            if mk not in envlog:
+                produced.append(mk)
+                envlog[mk] = env()
+            logging.getLogger("c18").error(mk)
+            log_bad_record(dc_rec)
+
+        if dc_deco == "n":
+            deco_hook = user_hook
+        else:
+            from behave.log_capture import capture as capture_decorator
+            deco_hook = {"c": lambda f: capture_decorator(f), "d": lambda f: capture_decorator(level=logging.DEBUG)(f),
+                         "e": lambda f: capture_decorator(level=logging.ERROR)(f)}[dc_deco](user_hook)
+
+        def call_user_hook(name, ctx, *args):
+            """called LAST in every bookkeeping hook: whatever it raises goes to behave's run_hook like a user hook's error"""
+            if name != dc_hook:
+                return
+            before_lc = [h for h in root.handlers if isinstance(h, LoggingCapture)]
+            before_level = root.level
+            try:
+                deco_hook(ctx, *args)
+            finally:
+                left = [h for h in root.handlers if isinstance(h, LoggingCapture) and not any(h is b for b in before_lc)]
+                obs["deco"].append((name, len(left), before_level, root.level))
 
         def make_step(kind):
             def step_impl(ctx, sid, prof="aa"):
@@ -446,6 +531,8 @@ def drive(scens, sw, lvname, vol=None):
                         n -= len(lc.buffer) + 4 * per_site
                     obs["vol_n"] = n
                     emit_volume(produced, sid, n)
+                if kind in REC_KINDS:
+                    log_bad_record(kind)
                 if kind == "fail":
                     assert False, "boom"
                 if kind == "error":
@@ -461,7 +548,7 @@ def drive(scens, sw, lvname, vol=None):
             step_impl.__name__ = "step_" + kind
             return step_impl
 
-        for kind in OUTCOMES + ("vol",) + STATE_KINDS + UNI_KINDS:
+        for kind in OUTCOMES + ("vol",) + STATE_KINDS + UNI_KINDS + REC_KINDS:
             reg.add_step_definition("step", "{sid:w} %s" % kind, make_step(kind))
             reg.add_step_definition("step", "{sid:w} %s {prof:w}" % kind, make_step(kind))
 
@@ -477,6 +564,7 @@ def drive(scens, sw, lvname, vol=None):
             st.update(override=None, has_user=user in root.handlers or any(h in root.handlers for h in sinks),
                       extra=False, touched=False)
             snap[0] = snapshot()
+            call_user_hook("before_scenario", ctx, scenario)
 
         def before_all(ctx):
             ctx.config.setup_logging()
@@ -489,22 +577,31 @@ def drive(scens, sw, lvname, vol=None):
 
         def after_scenario(ctx, scenario):
             note("after_scenario")
+            call_user_hook("after_scenario", ctx, scenario)
 
         def after_feature(ctx, feature):
             check_snapshot("after_feature")
             note("after_feature")
+            call_user_hook("after_feature", ctx, feature)
 
         def before_step(ctx, step):
             sid, kind, _, hp = parse(step.name)
             emit(sid, "b", hp)
+            call_user_hook("before_step", ctx, step)
             if kind == "hb":
                 raise HookFault("before_step hook fault")
 
         def after_step(ctx, step):
             sid, kind, _, hp = parse(step.name)
             emit(sid, "a", hp)
+            call_user_hook("after_step", ctx, step)
             if kind == "ha":
                 raise HookFault("after_step hook fault")
+
+        def plain_hook(name):
+            def hook(ctx, *args):
+                call_user_hook(name, ctx, *args)
+            return hook
 
         runner = m["ModelRunner"](config, [feat], step_registry=reg)
         runner.hooks = {"before_scenario": before_scenario, "after_scenario": after_scenario,
@@ -513,6 +610,8 @@ def drive(scens, sw, lvname, vol=None):
             runner.hooks["before_all"] = before_all
         if lv.get("nball") or named:
             runner.hooks["before_all"] = before_all_rh
+        if dc_hook in HOOK_KINDS and dc_hook not in runner.hooks:
+            runner.hooks[dc_hook] = plain_hook(dc_hook)
         pbuf, qbuf = io.StringIO(), io.StringIO()
         runner.formatters = [IdentRecorder(note),
                              PlainFormatter(m["StreamOpener"](stream=pbuf), config),
@@ -545,7 +644,24 @@ def drive(scens, sw, lvname, vol=None):
 def judge(scens, sw, lvname, obs, v):
     lv = logvar(lvname)
     produced = obs["produced"]
-    rt = {mk: route(MARK.match(mk).group(1), sw, lv, obs["env"].get(mk)) for mk in produced}
+    dc_hook, dc_deco, dc_rec = lv.get("dc", ("none", "n", "ok"))
+    # accept-set: how a record that cannot be formatted surfaces (hook error, step error, logging's own handleError output,
+    # not at all) is not stated -> the position of the first failing step is then taken from the observation
+    unformattable = dc_rec != "ok" or lv.get("fmt") == "nokey" or any(base(o) in REC_KINDS for seq in scens for o in seq)
+
+    def route_of(mk):
+        chan = MARK.match(mk).group(1)
+        if chan != "HK":
+            return route(chan, sw, lv, obs["env"].get(mk))
+        if dc_hook not in STEP_HOOKS:
+            return "any"        # scenario/feature/run/tag hooks run outside the capture windows of steps: not judged
+        if dc_deco == "n":
+            return route(chan, sw, lv, obs["env"].get(mk))
+        # @capture prints what the hook logged to sys.stdout when the hook ends ("Captured Logging:"); if the hook also
+        # logged an unformattable record that print may or may not happen
+        r = "cap" if sw[0] else "out"
+        return r + "?" if (dc_rec != "ok" or lv.get("fmt") == "nokey") else r
+    rt = {mk: route_of(mk) for mk in produced}
     chan_of = lambda mk: CHAN_NAME[MARK.match(mk).group(1)]     # noqa
     sws = "".join("1" if x else "0" for x in sw)
 
@@ -553,6 +669,7 @@ def judge(scens, sw, lvname, obs, v):
     for sname, key in (("stdout", "out"), ("stderr", "err")):
         got = markers(obs[key])
         want = [mk for mk in produced if rt[mk] == key]
+        got = [mk for mk in got if rt.get(mk) not in ("any", "out?")]
         leaked = [mk for mk in got if rt.get(mk) not in (key,)]
         if leaked:
             sites = sorted(set(MARK.match(mk).group(4) + MARK.match(mk).group(5)[0] for mk in leaked))
@@ -568,9 +685,21 @@ def judge(scens, sw, lvname, obs, v):
     if not sw[2] and lv["handler"]:
         want = [mk for mk in produced if rt[mk] == "user"]
         got = [mk for msg in obs["user"] for mk in markers(msg)]
+        if "dc" in lv:
+            got = [mk for mk in got if rt.get(mk) == "user"]     # a @capture-decorated hook's records reach kept handlers too
         if got != want:
             v.append(({"subcheck": "passthrough", "clause": "log-records-lost-with-logcapture-off"},
                       "switches %s: user handler received %s, produced %s" % (sws, got[:12], want[:12])))
+
+    # the documented @capture decorator leaves the root logger as it found it: its own handler is gone, the level is back
+    for name, n_left, lvl_before, lvl_after in obs.get("deco", ()):
+        if n_left:
+            v.append(({"subcheck": "logging", "clause": "capture-decorator-handler-left-on-root"},
+                      "switches %s, %s: after the @capture-decorated %s hook %d LoggingCapture handler(s) it installed still sit on "
+                      "the root logger" % (sws, lvname, name, n_left)))
+        if lvl_before != lvl_after:
+            v.append(({"subcheck": "logging", "clause": "root-level-changed-by-hook-call"},
+                      "switches %s, %s: root level %s before the %s hook, %s after it" % (sws, lvname, lvl_before, name, lvl_after)))
 
     # pre-existing root handlers ("rh|" variants)
     for hi, msgs in enumerate(obs.get("sinks", ())):
@@ -605,9 +734,13 @@ def judge(scens, sw, lvname, obs, v):
     union_reports = set()
     optional = set()
     reported = set()
+    failpos = {}
     for si, seq in enumerate(scens):
         fk = [ki for ki, o in enumerate(seq) if isfail(o)]
-        fk = fk[0] if fk else None
+        if unformattable:
+            fk += [ki for ki in range(len(seq)) if obs["steps"][si][ki][0] not in ("passed", "skipped", "untested")]
+        fk = min(fk) if fk else None
+        failpos[si] = fk
         for ki, o in enumerate(seq):
             status, emsg = obs["steps"][si][ki]
             got = set(markers(emsg))
@@ -660,7 +793,7 @@ def judge(scens, sw, lvname, obs, v):
                       "switches %s: scenario S%d.captured contains %s" % (sws, si, foreign[:6])))
 
     # (3) formatter outputs
-    passing = set(si for si, seq in enumerate(scens) if not any(isfail(o) for o in seq))
+    passing = set(si for si, seq in enumerate(scens) if failpos.get(si) is None)
     for fname in ("plain", "pretty"):
         got = set(markers(obs[fname]))
         shown_pass = [mk for mk in got if mkey(mk)[0] in passing]
@@ -699,7 +832,7 @@ def judge(scens, sw, lvname, obs, v):
     interrupted = False
     for si, seq in enumerate(scens):
         sts = [st_ for st_, _ in obs.get("steps", [[]] * len(scens))[si]] if obs.get("steps") else []
-        if si > 0 and not interrupted and sts and sts[0] == "untested":
+        if si > 0 and not interrupted and sts and sts[0] == "untested" and not (unformattable and dc_hook not in STEP_HOOKS + ("none",)):
             prev = [base(o) for o in scens[si - 1] if isfail(o)]
             v.append(({"subcheck": "run", "clause": "run-does-not-continue-after-failing-scenario",
                        "first_failing": prev[0] if prev else "-"},
@@ -737,6 +870,23 @@ def run_case(case):
     obs = drive(scens, sw, lvname)
     v = []
     rt = judge(scens, sw, lvname, obs, v)
+    lvd = logvar(lvname)
+    if "dc" in lvd:
+        # name the library-use trigger in every descriptor of these cases
+        hook, deco, rec = lvd["dc"]
+        unf = rec != "ok" or lvd["fmt"] == "nokey" or any(base(o) in REC_KINDS for q in scens for o in q)
+        if unf and obs["escaped"] in ("TypeError", "RuntimeError", "ValueError"):
+            # the formatting error of a buffered record escaped run(): missing reports, the handler left behind and the lost rest
+            # of the run are its consequences -> one violation (plus whatever concerns the decorator itself)
+            keep = [(d, msg) for d, msg in v if d.get("clause") in ("capture-decorator-handler-left-on-root",
+                                                                      "root-level-changed-by-hook-call")]
+            v[:] = [({"subcheck": "run", "clause": "exception-escapes-run", "exc": "log-record-formatting-error",
+                      "capture_decorator": "-"},
+                     "switches %s, %s: run() raised %s: a log record that cannot be formatted sat in a capture buffer when a "
+                     "failure report was built" % ("".join("1" if x else "0" for x in sw), lvname, obs["escaped"]))] + keep
+        for d, _ in v:
+            d.setdefault("capture_decorator", "-" if deco == "n" else ("step-hook" if hook in STEP_HOOKS else "other-hook"))
+            d["unformattable"] = "record-logged" if unf else "-"
     executed = set(mkey(mk) for mk in obs["produced"])
     failing_executed = any((si, ki) in executed for si, seq in enumerate(scens) for ki, o in enumerate(seq)
                            if isfail(o))
@@ -1055,6 +1205,39 @@ def unicode_cases(tier):
                         yield (prog, sw, lvname)
 
 
+def decorator_cases(tier):
+    """library use: behave.log_capture.capture on every hook kind x {undecorated, @capture, @capture(level=DEBUG), @capture(level=ERROR)}
+    x record logged by that hook {well-formed, args that do not fit the format, an arg whose __str__ raises} x 8 switches; steps that
+    log such records; custom / broken --logging-format"""
+    quick = tier == "quick"
+    progs = [(("pass", "fail"), ("fail",), ("pass",)),
+             (("badargs", "fail"), ("pass",), ("fail",)),
+             (("pass",), ("badstr",), ("fail",))]
+    if not quick:
+        progs += [(("exec", "badargs", "error"), ("pass", "fail")), (("badstr qq", "fail qq"), ("pass qq",), ("fail",)),
+                  (("hb",), ("badargs", "ha"), ("pass",)), (("fail",), ("pass",), ("badargs", "ude"))]
+    names = ["dc|none|n|ok|-"]
+    for hook in HOOK_KINDS:
+        # quick: the level=... forms of the decorator only on the step and scenario hooks
+        for deco in ("ncde" if not quick or hook in STEP_HOOKS + ("before_scenario", "after_scenario") else "nc"):
+            for rec in ("ok", "args", "str"):
+                names.append("dc|%s|%s|%s|-" % (hook, deco, rec))
+    for hook in (("before_step", "after_scenario", "none") if quick else HOOK_KINDS + ("none",)):
+        for deco in ("n", "c"):
+            for rec in ("ok", "args"):
+                for fmt in ("custom", "nokey"):
+                    if hook == "none" and (deco != "n" or rec != "ok"):
+                        continue
+                    names.append("dc|%s|%s|%s|%s" % (hook, deco, rec, fmt))
+    for lvname in names:
+        _, hook, deco, _, _ = lvname.split("|")
+        for prog in progs:
+            for sw in SWITCHES:
+                if sw[2] and deco != "n" and hook in STEP_HOOKS:
+                    continue        # see ASSUMPTIONS: a decorated step hook replaces behave's own scenario log capture by design
+                yield (prog, sw, lvname)
+
+
 def emission_cases(tier):
     """what each step / its hooks emit (incl. nothing at all, only below the capture level, only a filtered-out logger)
     and steps that change the root logger inside the scenario; the special scenario is first, middle, last or all of a
@@ -1124,11 +1307,16 @@ def run(ctx):
     ctx.bounds["pre_existing_root_handlers"] = {"count": [0, 1, 2, 3], "added": ["before the run", "in before_all", "both"],
                                                 "clear_handlers": [False, True], "scenarios": "3-4"}
     ctx.bounds["exception_str_raises_unicode_error"] = list(UNI_KINDS)
+    ctx.bounds["capture_decorator"] = {"hooks": list(HOOK_KINDS), "decoration": ["none", "@capture", "@capture(level=DEBUG)", "@capture(level=ERROR)"],
+                                       "hook_record": ["well-formed", "args do not fit the format", "arg whose __str__ raises"],
+                                       "step_record_kinds": list(REC_KINDS), "logging_format": sorted(FORMATS)}
     ctx.bounds["volume_N"] = ["%d*capacity%+d" % mo for mo in VOLUMES]
     ctx.sweep(run_case, cases(ctx.tier), chunk=48, name="outcome sequences x 8 capture switches x logging variants")
     ctx.sweep(volume_case, volume_cases(ctx.tier), chunk=2, name="volume: N lines/records around the log handler capacity")
     ctx.sweep(run_case, unicode_cases(ctx.tier), chunk=48,
               name="failing step whose exception's __str__ raises a UnicodeError x emission profiles x 8 switches")
+    ctx.sweep(run_case, decorator_cases(ctx.tier), chunk=48,
+              name="@capture decorator on every hook kind x unformattable records from hooks and steps x logging formats")
     ctx.sweep(run_case, emission_cases(ctx.tier), chunk=48,
               name="emission profiles (silent / below level / filtered-out) and steps changing the root logger, 3 scenarios")
     ctx.sweep(run_case, roothandler_cases(ctx.tier), chunk=16,
